@@ -6,6 +6,7 @@ import LitexProofs.Packet.Fair
 import LitexProofs.Packet.RoundTrip
 import LitexProofs.Packet.Bytes
 import LitexProofs.Packet.UnalignedStep
+import LitexProofs.Packet.UnalignedRoundTrip
 /-
   C16 — Packet framing: headers round-trip and packets are never interleaved or torn.
 
@@ -290,9 +291,9 @@ example :
 
   Full statements (all `c` with `B, H > 0`) are false on the current tree — findings
   C16-header-shorter-than-beat (`H < B`), C16-packetizer-unaligned-single-beat,
-  C16-packetizer-unaligned-bubble, C16-depacketizer-residue-end — see the negative witnesses below.  The
-  unaligned machines are modelled and compared exhaustively with the code (correspondence + monitors), their
-  residue theorem is `_open` (comment at the end). -/
+  C16-packetizer-unaligned-bubble, C16-depacketizer-residue-end — see the negative witnesses below.  Headers that
+  are not a multiple of the data width (`UnalignedCfg c`: `H % B ≠ 0`, `H ≥ B`) are proved separately further
+  down, under hypotheses that exclude exactly those findings. -/
 
 /-- **packetizer_bytes** (`_partial`: aligned header).  For every contract-abiding input sequence the beats
     delivered so far are exactly `frame accepted` — per packet the `W` header words of the header presented with
@@ -414,16 +415,16 @@ example :
     `last` — i.e. byte for byte `header ++ payload ++ padding`; possibly followed by header words running ahead
     of a first beat on offer, or still missing the flush beat of the packet just accepted. -/
 theorem packetizer_bytes_unaligned_partial (c : PkCfg) (hc : UnalignedCfg c) (ins : List (In HBeat))
-    (hok : UOk c (packetizer c).init none ins) :
+    (hok : UOk (packetizer c) (packetizer c).init none ins) :
     let e := packetizer c
     let a := e.accepted e.init ins
     let d := e.delivered e.init ins
     d.map (maskPad c) = frameU c a ∨
-    (∃ v k, uenvRun c e.init none ins = some v ∧ v.pend = true ∧ k ≤ c.W ∧
+    (∃ v k, uenvRun e e.init none ins = some v ∧ v.pend = true ∧ k ≤ c.W ∧
       d.map (maskPad c) = frameU c a ++ (hdrWords c (hdrOf c v.lines)).take k) ∨
     (∃ x, d.map (maskPad c) ++ [flushBeat c x] = frameU c a) := by
   intro e a d
-  have h := rel_run_uok c (uRel c) (upacketizer_step c hc) ins e.init none [] []
+  have h := rel_run_uok e (uRel c) (upacketizer_step c hc) ins e.init none [] []
     (by simp [uRel, e, packetizer, PkState.reset, uEnd, frameU, frameUAux, envAtStart]) hok
   simp only [List.nil_append] at h
   exact uRel_shape c _ _ _ _ h
@@ -436,28 +437,70 @@ example :
     let i (v : Bool) (d : Nat) (l rdy : Bool) : In HBeat := ⟨v, ⟨⟨d, 0xc3b2a1⟩, false, l⟩, rdy⟩
     let ins := [i true 0x2211 false true, i true 0x2211 false false, i true 0x2211 false true,
                 i false 0x2211 false true, i true 0x4433 true true, i false 0x4433 true true]
-    UnalignedCfg c ∧ UOk c (packetizer c).init none ins ∧
+    UnalignedCfg c ∧ UOk (packetizer c) (packetizer c).init none ins ∧
     ((packetizer c).delivered (packetizer c).init ins).map (maskPad c) =
       [⟨0xb2a1, false, false⟩, ⟨0x11c3, false, false⟩, ⟨0x3322, false, false⟩, ⟨0x44, false, true⟩] ∧
     frameU c ((packetizer c).accepted (packetizer c).init ins) =
       [⟨0xb2a1, false, false⟩, ⟨0x11c3, false, false⟩, ⟨0x3322, false, false⟩, ⟨0x44, false, true⟩] := by
   refine ⟨⟨by decide, by decide, by decide⟩, uok_of_B _ _ _ _ (by decide), by decide, by decide⟩
 
+/-- **depacketizer_bytes, header not a multiple of the data width** (`_partial`).  For every input sequence (no
+    contract needed) such that no accepted header beat and no residue beat carries `last` — every packet has at
+    least `W + 2` beats; this excludes finding C16-depacketizer-residue-end — the delivered beats are
+    `deframeU accepted`: the header is the first `H` bytes of the packet (the `W` header beats and the low `L`
+    bytes of the next one), every following whole beat of payload (`top B−L bytes of beat j ++ low L bytes of
+    beat j+1`) is delivered with that header, `last` with the packet's last beat; the `B − L` trailing bytes of
+    the last beat (the Packetizer's padding) are dropped. -/
+theorem depacketizer_bytes_unaligned_partial (c : PkCfg) (hc : UnalignedCfg c) (ins : List (In Nat))
+    (hwf : udWellFormed c (.hdr 0 0) ((depacketizer c).accepted (depacketizer c).init ins)) :
+    (depacketizer c).delivered (depacketizer c).init ins =
+      deframeU c ((depacketizer c).accepted (depacketizer c).init ins) :=
+  (udepacketizer_run c hc ins hwf).1
+
+/-- **pkt_depkt_roundtrip, header not a multiple of the data width** (`_partial`, hypotheses `UOk` as for
+    `packetizer_bytes_unaligned_partial`).  Packetizer → Depacketizer delivers exactly the accepted beats, payload
+    and `last` unchanged, each with the header presented with the first beat of its packet — except that the most
+    recently accepted beat may still be in flight (half of it sits in `sink_d`): `delivered ++ tail = annot accepted`
+    with `tail` of length at most 1. -/
+theorem pkt_depkt_roundtrip_unaligned_partial (c : PkCfg) (hc : UnalignedCfg c) (ins : List (In HBeat))
+    (hok : UOk (pkdpk c) (pkdpk c).init none ins) :
+    ∃ tail, (pkdpk c).delivered (pkdpk c).init ins ++ tail = annot c ((pkdpk c).accepted (pkdpk c).init ins) ∧
+      tail.length ≤ 1 := by
+  have h := rel_run_uok (pkdpk c) (urtRel c) (upkdpk_step c hc) ins (pkdpk c).init none [] []
+    (urtRel_init c) hok
+  simp only [List.nil_append] at h
+  exact urtRel_concl c hc _ _ _ _ h
+
+/-- Non-vacuity of the unaligned round trip (dw = 16, 3-byte header): the packet `2211 4433 6655` comes back
+    complete, every beat with header `0xc3b2a1`. -/
+example :
+    let c : PkCfg := ⟨2, 3⟩
+    let i (v : Bool) (d : Nat) (l rdy : Bool) : In HBeat := ⟨v, ⟨⟨d, 0xc3b2a1⟩, false, l⟩, rdy⟩
+    let ins := [i true 0x2211 false true, i true 0x2211 false true,
+                i false 0x2211 false true, i true 0x4433 false false, i true 0x4433 false true,
+                i true 0x6655 true true, i false 0x6655 true true, i false 0 false true]
+    UOk (pkdpk c) (pkdpk c).init none ins ∧
+    (pkdpk c).delivered (pkdpk c).init ins =
+      [⟨⟨0x2211, 0xc3b2a1⟩, false, false⟩, ⟨⟨0x4433, 0xc3b2a1⟩, false, false⟩, ⟨⟨0x6655, 0xc3b2a1⟩, false, true⟩] := by
+  refine ⟨uok_of_B _ _ _ _ (by decide), by decide⟩
+
 /-
-  _open (not counted): for headers that are not a multiple of the data width the Depacketizer and the round trip
-  are not proved:
-
-    theorem depacketizer_bytes_unaligned_open (c) (hc : UnalignedCfg c) :
-      every packet has at least W + 2 beats (excludes C16-depacketizer-residue-end) →
-      delivered = deframeU accepted        -- header = first H bytes, payload = the following whole beats
-    theorem pkt_depkt_roundtrip_unaligned_open (c) (hc : UnalignedCfg c) : UOk … →
-      delivered = annot c accepted
-
-  The unaligned Depacketizer is modelled bit-exactly (`dpUData`, `dpShiftLeft`, `sink_d`, `fsm_from_idle`) and is
-  covered by the exhaustive correspondence (dw = 16, H ∈ {1, 3, 5}; dw = 24/32 in the thorough tier) and by the
-  de-framing / round-trip monitors on the real code (test_packet's 31-byte header at dw = 32, 64, 128, eth/ip-like
-  headers, random headers).
+  Not covered by any theorem (findings, see the negative witnesses above): headers shorter than one beat
+  (`H < B`, `header_words = 0`), single-beat packets and producer bubbles with changing lines through an unaligned
+  Packetizer, packets ending inside the residue beat at an unaligned Depacketizer.  These regions are modelled
+  bit-exactly and compared with the code exhaustively in the correspondence.
 -/
+
+/-- **Byte layout** (aligned header): the `W` header beats, flattened to bytes lane 0 first, are the header bytes
+    `0 … H-1` of the header signal (whose fields sit where `encode_layout` says). -/
+theorem packetizer_header_bytes (c : PkCfg) (hc : AlignedCfg c) (h : Nat) :
+    beatBytes c (hdrWords c h) = toBytes c.H h := hdrWords_bytes c hc h
+
+/-- … so a framed packet reads, byte by byte: `header bytes ++ payload bytes of beat 1 ++ …`. -/
+theorem frame_bytes (c : PkCfg) (hc : AlignedCfg c) (t : Tok HBeat) (r : List (Tok HBeat)) :
+    beatBytes c (frame c (t :: r)) =
+      toBytes c.H (hdrOf c t) ++ toBytes c.B (t.data.data % 2 ^ c.dw) ++ beatBytes c (frameAux c t.last r) :=
+  frame_bytes_cons c hc t r
 
 /-- The framing functions are inverse to each other on whole packets (pure statement). -/
 theorem deframe_frame_eq (c : PkCfg) (hc : AlignedCfg c) (a : List (Tok HBeat)) :
